@@ -17,6 +17,10 @@ CLAIMS = {
          "adversary classes explicit; liveness only on complete graphs; anti-starvation timers set to 4", "explicit-state BFS to closure + bad-cycle (lasso) search on the complete graph"),
  "C07": (MC, "complete reachable graphs of the real port converter (up 1:2..1:32, down 2:1..8:1, modes both/read/write) between a K-command native master (all address orders, last/flush hints) and a real-core-limited memory responder with unrestricted timing; byte-exact reference, quiescence comparison and drain liveness",
          "bounded: K commands over two wide words; responder latencies >= real-core minima (3/6 cycles)", BFS),
+ "C10": (MC, "complete reachable graphs of the real Wishbone bridge (equal width, narrow bus with merge buffer/read cache, wide bus with down-converter, base addresses) and of the native-to-Wishbone bridge: K accesses from a colliding alphabet, classic and incrementing-burst cycles, aborts possible in every cycle, all memory timings; ack-once rule, byte-exact reference with value sets after aborted writes, quiescent memory comparison, liveness",
+         "K = 3-4 accesses (5 in thorough); sequential master (one access at a time)", BFS),
+ "C11": (MC, "complete reachable graphs of the real Avalon-MM bridge per access scenario (single and burst writes with per-beat byte enables, burst reads; widths 32/32, 32/16, 16/32, 8/32; max burst 2-4; base addresses; don't-care values on idle lines) under every legal master timing incl. idle cycles inside write bursts, waitrequest, cmd.ready stalls and memory latencies; beat-exact reference, readdatavalid count/order, final memory, liveness",
+         "scenario list fixed; sequential (thorough: pipelined) master", BFS),
  "C12": (MC, "closed graphs of the DMA reader and writer between unbounded stream producers/consumers (free stalls) and the memory responder; exactly-once in-order scoreboard, reservation invariant, drain liveness",
          "FIFO depths 2-4 quick (2-8 thorough); 3-address alphabet", "explicit-state BFS to closure with stream scoreboard"),
  "C13": (MC, "closed graph of the DRAM-FIFO core (2-entry DMA FIFOs, every timing free) and deviation-bounded exploration (mode changes of producer/consumer, non-default memory answers) of the full LiteDRAMFIFO incl. bypass FSM and width ratio 2-4; stream equality, level bound, no overwrite of unread words, drain liveness",
@@ -33,6 +37,10 @@ CLAIMS = {
          "datasheet = the library class's numbers; clock grid 10-400 MHz (5 MHz quick, 1 MHz + boundary frequencies thorough)", "exhaustive input/configuration enumeration against an independent exact-rational oracle"),
  "C18": (MC, "DFI rate converter: complete reachable graphs over two phase-aligned clock domains (ratios 2/4/8, 1-2 PHY phases, all write/read delays in thorough) for all sequences of slow-cycle command patterns and fast-side read-data patterns, every output of every step compared with the documented slot mapping and latencies; DFI injector: exhaustive enumeration of every field value against several backgrounds plus the full product of 1-bit fields through the real netlist (transparency in hardware mode, no controller influence in software mode)",
          "injector widths shrunk, per-bit independence argued from structure; CSR field signals treated as free inputs; slow-cycle alphabet = NOP / one tagged command per slot / all slots", "explicit-state BFS of the elaborated two-clock netlist + exhaustive input enumeration of the injector netlist"),
+ "C19": (MC, "complete reachable graphs of the real SDRAMPHYModel (SDR/DDR/LPDDR/DDR2/DDR3/DDR4 settings) in lock-step with an independent DRAM reference over all legal command sequences of K commands (ACT/PRE/PREA/RD/WR+masks, 2 banks x 2 rows x 2 columns) and their timing; read data and latency every cycle, final memory; plus exhaustive comparison of initial-content images for both address mappings",
+         "bank arrays (Memory primitives) are played by the environment with Migen semantics and sparse contents (cut out of the netlist), K = 4 (5-6 thorough); rddata_valid required on at least one phase", BFS),
+ "C20": (MC, "closed graphs of the real LPDDR4 adapters + CommandsPipeline (8 phases) and of the LPDDR5 sim PHY command path: every command type on every phase with all-0/all-1/walking operand sets, and every placement of up to 2 (thorough 3) commands per cycle over all pairs of consecutive cycles; serialized CS/CA stream decoded by an independent JEDEC truth-table decoder and compared slot by slot with the reference (suppression only for overlap with a sent command)",
+         "LPDDR5: the sim PHY's command path (adapter + command buffer); two pipeline findings fingerprinted by history flags", BFS),
  "C17": (EX, "exhaustive enumeration of memtype x CL/CWL x nphases x module-derived timings x clock grid x electrical/RDIMM/clam-shell options through the real init generators, judged by independent JEDEC mode-register decoders (BL/CL/CWL equality, write-recovery bounds, field overlap/overflow, C vs Python rendering)",
          "decoders transcribed from the JEDEC standards; termination/drive options are outside the property's field list (noted, not judged); operating points below the JEDEC minimum clock are not judged for the WR upper bound", "exhaustive input/configuration enumeration against independent decoders"),
 }
